@@ -72,10 +72,13 @@ impl Units {
     }
 }
 impl std::io::Write for Units {
+    /// `write` may accept fewer bytes than offered (a pipe that is nearly full, a socket): this sink takes at most
+    /// 11 per call.  Whoever calls it directly has to look at the count; `write_all` and `write_fmt` do.
     fn write(&mut self, b: &[u8]) -> std::io::Result<usize> {
         self.unit();
-        self.buf.extend_from_slice(b);
-        Ok(b.len())
+        let n = b.len().min(11);
+        self.buf.extend_from_slice(&b[..n]);
+        Ok(n)
     }
     fn write_all(&mut self, b: &[u8]) -> std::io::Result<()> {
         self.unit();
